@@ -6,8 +6,8 @@ GOSSIPSIM_STUB = {
     "funding manager (addToGraph / announceChannel), the remote endpoint of the node's own channels, NotifyWhenOnline/NotifyWhenOffline, FindChannel": "simulator: it hands over the proof-less local channel_announcement (with capacity and channel point), local channel_update and the local announcement_signatures, signs the remote half with the remote node and bitcoin keys it owns, connects/disconnects the channel peer",
     "netann / lnwire validation (ValidateChannelAnn, ValidateChannelUpdateAnn, ValidateNodeAnn), lnwallet/chanvalidate": "real",
     "graph.Builder (funding-output validation, staleness checks, pruning on spends) and graph/db ChannelGraph + graph cache": "real; KV store on a SimKV bbolt file (write failures injected in one arm), sqlite store in one arm",
-    "chain (GetUtxo, GetBlock, block epochs, filtered chain view)": "simulator chain: funding outputs existing / missing / spent / wrong script / wrong amount; spends only when the tape says so",
-    "peers, sync managers' remote side, message signer for own announcements": "simulator stubs (1-3 gossip peers plus one peer per remote endpoint of an own channel; every message a peer is sent is recorded as 'relayed')",
+    "chain (GetUtxo, GetBlock, block epochs, filtered chain view)": "simulator chain: funding outputs existing / missing / spent / wrong script / wrong amount; spends only when the tape says so; backend fault: for one channel_announcement in six (decided by the message bytes) every GetUtxo call made while it is handled fails with an I/O error that is not ErrOutputSpent (fault_chain_getutxo_io_error)",
+    "peers, sync managers' remote side, message signer for own announcements": "simulator stubs (1-3 gossip peers with keys of their own, plus one peer per remote endpoint of an own channel, plus - created on demand - one peer per universe node whose identity key IS that node's key: one message in four, decided by the message bytes, is delivered by the node it speaks for (the announced node of a node_announcement, the signer slot of a channel_update's direction, node 1 of a channel_announcement), whether the message is sound or not; every message a peer is sent is recorded as 'relayed')",
     "independent reading of gossip messages": "simulator parses raw BOLT-7 wire bytes, double-SHA256 of the signed part, btcec signature verification; nothing in the oracle calls lnwire or netann",
     "graph/db.KVStore / SQLStore under concurrent callers (store-race arm, 1 run in 16, a third of them on sqlite)": "real KVStore on a SimKV bbolt file or real SQLStore on sqlite (reject cache, channel cache, batch scheduler with its cacheMu locker), OUTSIDE the bubble; add/update/mark-live calls for one channel are serialised and carry increasing timestamps, as graph.Builder's per-channel mutex guarantees, lookups, range queries and deletes are not: 2-3 real caller goroutines (HasChannelEdge, UpdateEdgePolicy, AddChannelEdge, DeleteChannelEdges, MarkEdgeLive, FilterKnownChanIDs, ChanUpdatesInHorizon) parked at the entry and exit of every database transaction (SimKV.OnTx/OnTxEnd; a wrapper around the SQL store's ExecTx) and released one at a time by the tape; whether a released goroutine reached its next point, finished or waits for a lock is read from the runtime's goroutine states (runtime.Stack), not from a timeout; the gossiper and builder are not part of this arm",
     "gossip v2, the real peer/brontide stack, historical sync (gossip_timestamp_filter back-fill is exercised, query_channel_range is not)": "not simulated",
@@ -45,7 +45,7 @@ CHECK = {
              "check compares an incoming update with) must equal the answer of a fresh store opened on the same file; in half of these runs the updates go through graph.Builder.UpdateEdge with timestamps fixed in advance (an older update can be in flight next to a newer one) and the stored policy must end at the newest timestamp UpdateEdge accepted. non-trivial = at least one channel entered the graph and at least one "
              "corrupted or stale message was delivered afterwards; distinct = distinct event-trace hash",
         states_measure="distinct (channels in graph, policies set, nodes announced, buffered premature messages, banned peers) tuples",
-        expected_probes=["relay_applied_checks", "race_schedule_choices", "race_coherence_checks", "race_builder_freshness_checks", "probe_race_goroutine_waited_for_a_lock", "probe_race_batch_runner_goroutines", "fault_wire_corruption", "fault_funding_spent", "fault_db_write_failed", "fault_long_sleep_past_prune_interval", "probe_zombie_channel_resurrected", "probe_buffered_update_applied_later",
+        expected_probes=["relay_applied_checks", "race_schedule_choices", "race_coherence_checks", "race_builder_freshness_checks", "probe_race_goroutine_waited_for_a_lock", "probe_race_batch_runner_goroutines", "fault_wire_corruption", "fault_funding_spent", "fault_chain_getutxo_io_error", "probe_delivered_by_the_node_the_message_speaks_for", "fault_db_write_failed", "fault_long_sleep_past_prune_interval", "probe_zombie_channel_resurrected", "probe_buffered_update_applied_later",
                          "probe_buffered_announcement_applied_later", "probe_future_height_msg_buffered", "probe_peer_disconnected_by_ban",
                          "graph_chan_added", "graph_policy_replaced", "graph_node_applied", "relayed_chan_ann", "relayed_chan_update", "relayed_node_ann",
                          "graph_own_chan_added", "graph_own_proof_added", "relayed_own_chan_ann", "probe_own_proof_completed_by_local_half",
